@@ -31,7 +31,7 @@ class ResWorld(World):
     name = "W-res"
 
     def __init__(self, variant: str = "full", low_energy: bool = True, pairs: bool = True, prices: bool = False,
-                 mechs=("quiet", "small", "quiet"), idle_timeout: int = 120, gas: bool = False, name: str = "", atomic_pairs: bool = False, v0_energy=None, split_base: bool = False, throttle: float = 1.0, slots: int = 1, twin_base: bool = False, auto: str = "", v2_energy=None, s1_site: str = "F1", v2_site: str = "X1", queued_start: bool = False, bs_two_plugs: bool = False):
+                 mechs=("quiet", "small", "quiet"), idle_timeout: int = 120, gas: bool = False, name: str = "", atomic_pairs: bool = False, v0_energy=None, split_base: bool = False, throttle: float = 1.0, slots: int = 1, twin_base: bool = False, auto: str = "", v2_energy=None, s1_site: str = "F1", v2_site: str = "X1", queued_start: bool = False, bs_two_plugs: bool = False, decoy_station: bool = False):
         super().__init__()
         self.pairs = pairs
         if name:
@@ -89,6 +89,14 @@ class ResWorld(World):
             # takes effect
             stations.append(mk_station(env, rn, "bs2", S["M1"], {"LEVEL_2": 1}))
             bases.append(mk_base(rn, "b2", S["M1"], stalls=1, station_id="bs2"))
+        if decoy_station:
+            # a kerb-side station of another operator on the base's own cell whose id sorts BEFORE the id of the station that serves the
+            # base, with another tariff: charging through the base is the serving station's business alone
+            import immutables as _im
+
+            a0 = mk_station(env, rn, "a0", S["X1"], {"LEVEL_2": 1})
+            _, a0 = a0.update_prices(_im.Map({"LEVEL_2": 0.4441}))
+            stations.append(a0)
         sim = build_sim(env, rn, vehicles=(v0, v1, v2), stations=tuple(stations), bases=tuple(bases))
         self.starts = {"init": sim}
         self.request_specs = {"r0": {"origin": S["N2"], "destination": S["M2"]}}
